@@ -13,6 +13,7 @@ package main
 //                package-level, foreign generic, foreign EP); every clone is then USED (writes, reads,
 //                Clone again) — a clone that cannot be used blocks its cloner, which the watchdog reports
 //   2 create     every way a context comes into being, concurrently; all op ids distinct
+//   3 quiescent  many short races, then every derived accessor must agree with the header maps (contextheap_quiesce.go)
 // Consistent snapshot: writer g sets "a<g>" := i and then "b<g>" := i, so at every instant
 // a = b or a = b+1; a copy taken under the lock (accessor, clone, serialised frame) must satisfy it.
 
@@ -33,7 +34,7 @@ import (
 	"github.com/apache/thrift/lib/go/thrift"
 )
 
-var c17ConcKinds = []string{"serialise", "clone", "create"}
+var c17ConcKinds = []string{"serialise", "clone", "create", "quiescent"}
 
 func c17ConcParse(args []string) (kind int, seed uint64, iters int, ok bool) {
 	if len(args) != 2 {
@@ -41,7 +42,7 @@ func c17ConcParse(args []string) (kind int, seed uint64, iters int, ok bool) {
 	}
 	b := unhx(args[0])
 	if len(b) > 0 {
-		kind = int(b[0]) % 3
+		kind = int(b[0]) % 4
 		for _, x := range b[1:] {
 			seed = seed*257 + uint64(x) + 1
 		}
@@ -54,6 +55,14 @@ func c17ConcParse(args []string) (kind int, seed uint64, iters int, ok bool) {
 		n = 2000000
 	}
 	return kind, seed, n, true
+}
+
+// c17Clip shortens a message (clip() of headers.go cuts at the first space: meant for outputs).
+func c17Clip(s string) string {
+	if len(s) > 400 {
+		return s[:400] + "…"
+	}
+	return s
 }
 
 type c17Problems struct {
@@ -101,7 +110,7 @@ func c17CheckSnapshot(p *c17Problems, where string, m map[string]string, fixed m
 
 func c17Recover(p *c17Problems, who string) {
 	if r := recover(); r != nil {
-		p.add("%s panicked: %s", who, clip(fmt.Sprint(r)))
+		p.add("%s panicked: %s", who, c17Clip(fmt.Sprint(r)))
 	}
 }
 
@@ -115,6 +124,8 @@ func c17ConcInproc(kind int, seed uint64, iters int) []string {
 		c17ConcSerialise(p, r, iters)
 	case 1:
 		c17ConcClone(p, r, iters)
+	case 3:
+		c17ConcQuiescent(p, r, seed, iters)
 	default:
 		c17ConcCreate(p, r, iters)
 	}
@@ -524,7 +535,7 @@ func c17ConcRun(args []string) (string, []string) {
 			if json.Unmarshal([]byte(q[1]), &d) == nil && d.Detail != "" {
 				probs = append(probs, d.Detail)
 			} else {
-				probs = append(probs, clip(q[1]))
+				probs = append(probs, c17Clip(q[1]))
 			}
 		}
 	}
@@ -537,6 +548,8 @@ func c17ConcRun(args []string) (string, []string) {
 // c17ConcClass: failure name that is stable across runs (for the shrinker of bin/check).
 func c17ConcClass(prob string) string {
 	switch {
+	case strings.HasPrefix(prob, "quiescent:"):
+		return "accessors of one FContext disagree after all concurrent operations have finished"
 	case strings.Contains(prob, "dies:"):
 		return "process dies under concurrent use of one FContext"
 	case strings.HasPrefix(prob, "blocked"):
@@ -559,12 +572,12 @@ func c17ConcReport(line, real string, probs []string) {
 			continue
 		}
 		seen[cl] = true
-		OracleFail("C17 concurrent: "+cl, map[string]interface{}{"op": "c17conc", "line": line, "detail": clip(pr), "got": real})
+		OracleFail("C17 concurrent: "+cl, map[string]interface{}{"op": "c17conc", "line": line, "detail": c17Clip(pr), "got": real})
 	}
 }
 
 func c17ConcGen(r *Rng, kind, iters int) {
-	hexarg := hx(append([]byte{byte(kind + 3*r.Intn(80))}, r.Bytes(4)...))
+	hexarg := hx(append([]byte{byte(kind + 4*r.Intn(60))}, r.Bytes(4)...))
 	args := []string{hexarg, strconv.Itoa(iters)}
 	line := "c17conc " + strings.Join(args, " ")
 	real, probs := c17ConcRun(args)
